@@ -161,7 +161,7 @@ func init() {
 		ID: "C11", Level: "exploration", Quick: 3000, Thorough: 300000,
 		Rule: "(a) datalog.World and (b) Authorize through AuthorizerFor / Authorizer / NewVerifier, on terminating programs, programs exceeding maxFacts (cross products) or maxIterations (successor chains), ill-formed rules (unbound head variable with 0-3 matches) and expression errors on the n-th match; limit configurations drawn around the reference model's |lfp| and depth; clock stalls (just below / at / above the deadline, and 10x) at tape-chosen scheduler steps; after every call the scheduler drains all parked goroutines and takes a goroutine census. A fault-enumeration part places the stall at EVERY scheduler step of a fixed catalogue of small programs. non-trivial = a limit or a stall actually took effect, or an error return was followed by a census (distinct by plan hash)",
 		Gen: func(r *rand.Rand, run int, tier string) *vm.Plan {
-			n := 10
+			n := 20
 			if tier == "thorough" {
 				n = 60
 			}
@@ -175,7 +175,7 @@ func init() {
 			if tier == "thorough" {
 				return 60
 			}
-			return 10
+			return 20
 		},
 		Oracles: func(m *vm.VM) []vm.Oracle {
 			return []vm.Oracle{vm.Common{Prop: "C11"}, vm.DLOracle{Prop: "C11"}, vm.VerdictOracle{Prop: "C04", Limits: true}}
